@@ -85,6 +85,7 @@ type scen struct {
 	EmptyOv   bool              `json:"empty_override_map,omitempty"`   // override = empty non-nil map
 	NilVR     bool              `json:"nil_verdict_map,omitempty"`      // plugin answers with a nil verificationResults map
 	EmptyProc bool              `json:"empty_processed,omitempty"`      // processedAttributes = empty non-nil slice
+	FoldKeys  bool              `json:"verdict_keys_lowercase,omitempty"` // verdicts filed under the lower-cased capability name: not the asked capability
 	HdrLast   bool              `json:"plugin_headers_last,omitempty"`  // plugin headers after the other attributes in the envelope
 	Step      string            `json:"history_step,omitempty"`         // position in a history on one verifier instance
 	// observation
@@ -120,6 +121,10 @@ func capFw(c string) pluginfw.Capability {
 		return pluginfw.CapabilityTrustedIdentityVerifier
 	case "Rev":
 		return pluginfw.CapabilityRevocationCheckVerifier
+	case "ti-lower": // near miss: not a verification capability
+		return pluginfw.Capability(strings.ToLower(string(pluginfw.CapabilityTrustedIdentityVerifier)))
+	case "rev-padded":
+		return pluginfw.Capability(" " + string(pluginfw.CapabilityRevocationCheckVerifier))
 	}
 	return pluginfw.CapabilitySignatureGenerator
 }
@@ -416,6 +421,9 @@ func run(a *Args) error {
 					} else {
 						vr := map[pluginfw.Capability]*pluginfw.VerificationResult{}
 						set := func(c pluginfw.Capability, v int) {
+							if s.FoldKeys {
+								c = pluginfw.Capability(strings.ToLower(string(c)))
+							}
 							switch v {
 							case 1:
 								vr[c] = &pluginfw.VerificationResult{Success: true}
@@ -546,7 +554,7 @@ func run(a *Args) error {
 		presp := "PErr"
 		if !s.RespErr {
 			verd := func(v int) string {
-				if s.NilVR {
+				if s.NilVR || s.FoldKeys {
 					return "None"
 				}
 				switch v {
@@ -985,6 +993,33 @@ func run(a *Args) error {
 				s2.OtherCrit, s2.OtherNon = ac.crit, ac.non
 				exec(s2, nil)
 			}
+		}
+	}
+
+	// near misses: what is listed / declared / answered is almost, but not, what was asked
+	for _, l := range []lv{{name: "strict"}, {name: "audit"}} {
+		for _, crit := range [][]string{{"foo"}, {"bar", "foo"}} {
+			for _, variant := range []string{"FOO", "Foo", " foo", "foo ", "fo", "foobar", "foo\x00", "\"foo\""} {
+				s := plugScen("positions", l, "TI")
+				s.OtherCrit = crit
+				s.Processed = append([]string{}, crit[:len(crit)-1]...)
+				s.Processed = append(s.Processed, variant)
+				exec(s, nil)
+			}
+		}
+		for _, caps := range [][]string{{"ti-lower"}, {"rev-padded"}, {"ti-lower", "Rev"}, {"TI", "rev-padded"}, {"ti-lower", "rev-padded"}} {
+			for _, vd := range [][2]int{{1, 1}, {2, 2}} {
+				s := plugScen("positions", l, caps...)
+				s.TI, s.Rev = vd[0], vd[1]
+				s.Identity = false
+				s.RevMode = 1
+				exec(s, nil)
+			}
+		}
+		for _, caps := range [][]string{{"TI"}, {"Rev"}, {"TI", "Rev"}} {
+			s := plugScen("positions", l, caps...)
+			s.FoldKeys = true
+			exec(s, nil)
 		}
 	}
 
